@@ -331,6 +331,7 @@ Definition with_orders (c : case) (po fo : list nat) : case :=
 
 Definition accepts_any (c : case) : bool :=
   if accepts c then true
+  else if strict (c_prim c) (c_pord c) && strict (c_fb c) (c_ford c) then false   (* the order is determined *)
   else existsb (fun po => existsb (fun fo => accepts (with_orders c po fo)) (perms (c_ford c))) (perms (c_pord c)).
 
 (* ---- the property, read off the label alone (no run of the model) ---- *)
